@@ -300,7 +300,13 @@ fn python_style_comments_parser(
         language,
         Box::new(move |node, source_code| {
             if node.kind() == comment_node_kind {
-                Some(source_code[node.byte_range()].replacen("#", " ", 1))
+                let comment = &source_code[node.byte_range()];
+                // Only a leading "#" is a comment symbol: comments without it (e.g. "=begin ... =end"
+                // in Ruby) are kept as is, including any "#" in their text.
+                Some(match comment.strip_prefix('#') {
+                    Some(text) => format!(" {text}"),
+                    None => comment.to_string(),
+                })
             } else {
                 None
             }
